@@ -1252,8 +1252,12 @@ class ContactHandler(Messenger, dbus.service.Object):
         self._rx_tmp = None
 
     def _check_sess_term(self):
-        ''' Perform post-termination logic. '''
-        if self._in_term and self.is_sess_idle():
+        ''' Perform post-termination logic.
+        The connection is closed only after the SESS_TERM of the peer has
+        been seen: until then the peer may have started transfers which it
+        is entitled to finish.
+        '''
+        if self._in_term and self._peer_term and self.is_sess_idle():
             self._logger.info('Closing in terminating state')
             self.close()
 
@@ -1270,7 +1274,7 @@ class ContactHandler(Messenger, dbus.service.Object):
 
         # Messages which followed the SESS_TERM of the peer in the same read
         # have been handled by now, so check again for the end of the session
-        if self._peer_term and self.get_app_socket() is not None:
+        if self.get_app_socket() is not None:
             self._check_sess_term()
 
     def _tx_flush_pend_start(self):
